@@ -28,8 +28,16 @@ def split_logical(cond, pol):
     (When the right operand needs temporaries clang evaluates the whole logical expression in
     the join block, so the branch condition is the `&&`/`||` itself.)"""
     c = unwrap_casts(cond)
+    if isinstance(c, dict) and c.get('k') == 'local' and isinstance(c.get('e'), dict):
+        e = unwrap_casts(c['e'])                       # origin()-expanded boolean local holding a logical expression
+        if isinstance(e, dict) and (e.get('k') == 'bin' and e.get('op') in ('&&', '||') or e.get('k') == 'un' and e.get('op') == '!'):
+            return split_logical(e, pol)
     if isinstance(c, dict) and c.get('k') == 'un' and c.get('op') == '!':
         inner = unwrap_casts(c.get('e'))
+        if isinstance(inner, dict) and inner.get('k') == 'local' and isinstance(inner.get('e'), dict):
+            e = unwrap_casts(inner['e'])
+            if isinstance(e, dict) and (e.get('k') == 'bin' and e.get('op') in ('&&', '||') or e.get('k') == 'un' and e.get('op') == '!'):
+                inner = e
         if isinstance(inner, dict) and inner.get('k') == 'bin' and inner.get('op') in ('&&', '||'):
             return split_logical(inner, 'F' if pol == 'T' else 'T')
     if isinstance(c, dict) and c.get('k') == 'bin' and c.get('op') == '&&' and pol == 'T':
